@@ -199,6 +199,7 @@ package dotgit
 //gvc:  modifies w.#announced
 //gvc:  ensures told: result == nil && w.saved != nil ==> w.#announced == old(w.#announced) + 1
 //gvc:  ensures quiet: result != nil ==> w.#announced == old(w.#announced)
+//gvc:  sink Notify requires stored: calls("save") == 1 && lastres("save") == nil
 //gvc:end
 
 // NewObject: the writer it returns has its owner's hook installed, and the
@@ -271,6 +272,9 @@ package dotgit
 // list built while a pack writer is open does not contain the new pack, so the
 // writer tells its owner when the pack has reached its permanent place and the
 // cached pack catalog is dropped again at that point.
+// The owner is also handed the pack's index (Notify) only for a pack that was
+// saved: an index published for a pack that is not there answers has() for
+// objects whose content cannot be read, also after they were written loose.
 //gvc:ghost PackWriter.announced nat
 
 //gvc:func field:PackWriter.saved
@@ -288,6 +292,7 @@ package dotgit
 //gvc:  modifies w.#announced
 //gvc:  ensures told: result == nil && w.saved != nil && calls("save") == 1 ==> w.#announced == old(w.#announced) + 1
 //gvc:  ensures quiet: result != nil ==> w.#announced == old(w.#announced)
+//gvc:  sink Notify requires stored: calls("save") == 1 && lastres("save") == nil
 //gvc:end
 
 //gvc:func (*DotGit).NewObjectPack
